@@ -176,13 +176,53 @@ class EStep(Contract):
 staleF = z3.Function("labels_of_a_run_that_stopped_with_zero_centre_shift", z3.ArraySort(z3.IntSort(), z3.IntSort()), z3.BoolSort())
 
 
-@contract(K + "::_init_centroids", "C06", assumed=True)
+@contract(K + "::_k_init", "C06", assumed=True)
+class KInit(Contract):
+    """ASSUMED (k-means++ seeding, randomised): n_clusters rows of the data's dimension"""
+
+    def result(self, E, a, old):
+        return NdArr.fresh("kpp_centers", (a.n_clusters, a.X.shape[1]), "real")
+
+
+@contract(K + "::_init_centroids", "C06")
 class InitCentroids(Contract):
-    """ASSUMED: k initial centres of the data's dimension (k-means++ / random rows / the given array)"""
+    """PROVED: with at least k points (k == n included) the initialisation never fails and gives k centres of the data's dimension -
+    k-means++ (its seeding _k_init assumed), k random rows of the data, or the given array"""
+    variants = ["k-means++", "random", "array"]
+
+    def setup(self, E, v):
+        n, d, k = E.size("n", 1), E.size("d", 1), E.size("k", 1)
+        X = E.nd("X", (n, d))
+        init = v if v != "array" else E.nd("init", (E.size("k_init", 0), E.size("d_init", 0)))
+        return dict(norm="L1", X=X, k=k, init=init, random_state=E.registry.new_random_state(E) if hasattr(E.registry, "new_random_state") else None,
+                    init_size=None, _v=v)
+
+    def requires(self, E, a):
+        out = {"at_least_as_many_points_as_clusters": z(a.X.shape[0]) >= z(a.k), "k>=1": z(a.k) >= 1}
+        if isinstance(a.init, NdArr):
+            out["the_given_array_has_k_rows_of_the_data_dimension"] = z3.And(z(a.init.shape[0]) == z(a.k), z(a.init.shape[1]) == z(a.X.shape[1]))
+        return out
+
+    def old(self, E, a):
+        return dict(w=a.X.cell.writes)
 
     def result(self, E, a, old):
         E.trace.append(dict(op="_init_centroids", random_state=a.random_state, init=a.init))
         return NdArr.fresh("centers0", (a.k, a.X.shape[1]), "real")
+
+    def ensures(self, E, a, res, old):
+        ok = isinstance(res, NdArr) and res.ndim == 2
+        out = {"k_centres_of_the_data_dimension": z3.BoolVal(False) if not ok else z3.And(z(res.shape[0]) == z(a.k), z(res.shape[1]) == z(a.X.shape[1])),
+               "data_not_written": z3.BoolVal(a.X.cell.writes == old["w"])}
+        kind = a._v if "_v" in a else ("array" if isinstance(a.init, NdArr) else (a.init if isinstance(a.init, str) else None))
+        if ok and kind == "array":
+            out["the_given_centres"] = E.forall_range([(0, z(a.k)), (0, z(a.X.shape[1]))], lambda c, j: res.get(c, j) == a.init.get(c, j))
+        if ok and kind == "random":
+            c, r = z3.Int(models.fresh_name("c")), z3.Int(models.fresh_name("r"))
+            j = z3.Int(models.fresh_name("j"))
+            out["every_centre_is_a_row_of_the_data"] = z3.ForAll([c], z3.Implies(z3.And(c >= 0, c < z(a.k)), z3.Exists([r], z3.And(
+                r >= 0, r < z(a.X.shape[0]), z3.ForAll([j], z3.Implies(z3.And(j >= 0, j < z(a.X.shape[1])), res.get(c, j) == a.X.get(r, j)))))))
+        return out
 
 
 def in_range(E, X, v, j):
@@ -271,10 +311,28 @@ class CentersDense(Contract):
         return out
 
 
-@contract(K + "::_tolerance", "C06", assumed=True)
+@contract(K + "::_tolerance", "C06")
 class Tolerance(Contract):
+    """PROVED (norm L1): a non-negative number - the sum over the columns of the mean absolute value - for any data with at least one row;
+    the data is not written"""
+    def setup(self, E, v):
+        return dict(norm="L1", X=E.nd("X", (E.size("n", 1), E.size("d", 1))), tol=E.real("tol"))
+
+    def requires(self, E, a):
+        return {"at_least_one_row": z(a.X.shape[0]) >= 1}
+
+    def old(self, E, a):
+        return dict(w=a.X.cell.writes)
+
     def result(self, E, a, old):
-        return E.real("tol_")
+        t = E.real("tol_")
+        E.assume(t >= 0)
+        return t
+
+    def ensures(self, E, a, res, old):
+        from pyvc.values import is_num_like
+        ok = is_num_like(res) and not isinstance(res, bool)
+        return {"a_non_negative_number": z3.BoolVal(False) if not ok else z(res) >= 0, "data_not_written": z3.BoolVal(a.X.cell.writes == old["w"])}
 
 
 def _run_ok(E, labels, inertia, centers, X, k):
@@ -444,10 +502,10 @@ class FitL1V(Contract):
 
 
 META = dict(
-    level="proof", assumptions=["A1", "A2", "A6", "A7", "A9"],
+    level="proof", lean_files=["lemmas/Sums.lean"], assumptions=["A1", "A2", "A6", "A7", "A9"],
     trusted=["pairwise_distances_argmin_min(metric='manhattan') returns an index of a Manhattan-nearest row and that distance; manhattan_distances is the "
              "matrix of those distances; KMeans.fit/predict/transform are scikit-learn's (L2 equality is equality by delegation)",
-             "ASSUMED in-repo steps of the L1 fit: _init_centroids (k-means++ / random / given array: k centres of the data's dimension), _tolerance; "
+             "ASSUMED in-repo steps of the L1 fit: _k_init (k-means++ seeding: k rows of the data's dimension); _init_centroids (never fails for n >= k) and _tolerance (L1) are PROVED; "
              "check_random_state / check_array / _check_sample_weight / numpy.isclose / numpy.where / argsort models; numpy.median lies, per column, "
              "between two entries of that column",
              "ghost flag of a run (labels_of_a_run_that_stopped_with_zero_centre_shift): only ever assumed positively - a run that stops with a centre "
